@@ -676,6 +676,37 @@ func checkProofGetter(c *Ctx, f *ssa.Function, field string) {
 			}
 		}
 	}
+	// indexed form: dst[i] = Root(src[i]) with one induction variable on both sides
+	if !ok {
+		fromField := func(x ssa.Value) bool {
+			return core.Derives(x, func(y ssa.Value) bool {
+				_, fl, _, okf := core.FieldRef(y)
+				if okf && fl == field {
+					return true
+				}
+				_, fl2, ok2 := core.LoadedField(y)
+				return ok2 && fl2 == field
+			}, core.DeriveOpts{})
+		}
+		for _, b := range f.Blocks {
+			for _, in := range b.Instrs {
+				st, isSt := in.(*ssa.Store)
+				if !isSt {
+					continue
+				}
+				dst, isIA := st.Addr.(*ssa.IndexAddr)
+				if !isIA || !isInductionVar(dst.Index) {
+					continue
+				}
+				if core.Derives(st.Val, func(v ssa.Value) bool {
+					ia, isIA2 := v.(*ssa.IndexAddr)
+					return isIA2 && ia.Index == dst.Index && fromField(ia.X)
+				}, core.DeriveOpts{}) {
+					ok = true
+				}
+			}
+		}
+	}
 	c.R.Check(ok, "R3.merkle-arguments", core.FuncName(f)+" reads "+field, c.P.Pos(f.Pos()), "the accessor converts the "+field+" vector in order", "the accessor does not return the "+field+" vector of the proof (siblings of another branch or another order)")
 }
 
